@@ -665,6 +665,25 @@ int main(int argc, char **argv)
             const struct tdesc *t = type_by_tok(a[2]);
             check_key(t, nm(a[3]));
             print_err(do_set(h, t, nm(a[3]), a[4]));
+        } else if (!strcmp(op, "sethex") && na == 6) {
+            /* the value as a hexadecimal string; a[5] >= 0: that pair of digits is replaced by "zz" */
+            int h = handle(a[1], true);
+            const struct tdesc *t = type_by_tok(a[2]);
+            check_key(t, nm(a[3]));
+            if (t->base != UDICT_TYPE_OPAQUE) die("sethex: only opaque", a[2]);
+            size_t len; unsigned seed;
+            parse_blob(a[4], 'o', &len, &seed);
+            uint8_t *p = materialise(len, seed, false);
+            char *hex = malloc(2 * len + 1);
+            for (size_t i = 0; i < len; i++) sprintf(hex + 2 * i, "%02x", p[i]);
+            hex[2 * len] = 0;
+            long bad = atol(a[5]);
+            if (bad >= 0 && (size_t)bad < len) { hex[2 * bad] = 'z'; hex[2 * bad + 1] = 'z'; }
+            int err = is_uref() ? uref_attr_set_opaque_from_hex(hu[h], hex, t->type, nm(a[3]))
+                                : udict_set_opaque_from_hex(hd[h], hex, t->type, nm(a[3]));
+            free(hex);
+            free(p);
+            if (err == UBASE_ERR_INVALID) printf("invalid\n"); else print_err(err);
         } else if (!strcmp(op, "seta") && na == 6) {
             int h = handle(a[1], true);
             const struct tdesc *t = type_by_tok(a[2]), *t2 = type_by_tok(a[4]);
